@@ -126,7 +126,7 @@ Renderings(F, d) ==
                         R("inline_combined", <<FlagSI(q \o <<"decode_group">>, <<"json">>)>> \o pos, 3)}
              ELSE {})
 LawGroup(F, d) == JoinWith("+", SeqOf(F)) \o (IF d THEN "+d=json" ELSE "")
-LawCasesOf(F, d) == {LET fi == IF r.first = 0 THEN <<2, Len(r.toks) - 2 - (IF d THEN 2 ELSE 0), Len(r.toks)>> ELSE Idx(r.first - 1, 3)
+LawCasesOf(F, d) == {LET fi == IF r.first = 0 THEN <<2, Len(r.toks) - 1 - (IF d THEN 2 ELSE 0), Len(r.toks)>> ELSE Idx(r.first - 1, 3)
                      IN Case("law:" \o r.law, LawGroup(F, d), r.toks, fi, "A") : r \in Renderings(F, d)}
 LawCases == UNION {LawCasesOf(F, d) : F \in LawSets, d \in BOOLEAN}
 \* after -- even flag look-alikes are positionals; -5 is a positional anywhere
